@@ -284,7 +284,13 @@ partial def splitCalls (env : String → Option Int) : Stmt → List (String × 
 /-- the range loop of the partitioned output: `iterRangeShapeRef(lo, hi, 1)` must run from `q1` to `min(q1 + n, Q)` -/
 partial def rangeLoops (env : String → Option Int) (q1 : String) (tests : List Int) : Stmt → List (String × Bool)
   | .block ss => ss.flatMap (rangeLoops env q1 tests)
-  | .for_ p (.method _ "iterRangeShapeRef" _ [lo, hi, st]) b =>
+  | .for_ p0 e0 b =>
+    let (e', enum) := HF.stripEnumerate e0
+    match e' with
+    | .method _ "iterRangeShapeRef" _ [lo, hi, st] =>
+    let p := match enum, p0 with
+      | true, .tuple [_, q] => q
+      | _, q => q
     let v := match p with
       | .tuple (.var x :: _) => x
       | .var x => x
@@ -295,7 +301,7 @@ partial def rangeLoops (env : String → Option Int) (q1 : String) (tests : List
       | some l, some h, some s1, some Qv, some nv => l == t && h == min (t + nv) Qv && s1 == 1
       | _, _, _, _, _ => false
     (v, ok) :: rangeLoops env q1 tests b
-  | .for_ _ _ b => rangeLoops env q1 tests b
+    | _ => rangeLoops env q1 tests b
   | _ => []
 
 def nestAff (j : Json) : Except String Json := do
